@@ -635,3 +635,14 @@ Proof.
     rewrite ctc_mass_split. auto.
   - intros p PV L. do 2 eexists. split; [apply Ex; eauto|]. rewrite ctc_mass_split. auto.
 Qed.
+
+(* the checker's way of summing is the specification's *)
+Lemma mass_fast_eq : forall rs p, mass_fast rs p = mass_in rs p.
+Proof.
+  intros rs p. unfold mass_fast, mass_in.
+  assert (G : forall acc, fold_left (fun acc st => if list_nat_eqb (a_pre st) p then (acc + a_w st)%Qc else acc) rs acc
+                          = (acc + qsum (map (fun st => if list_nat_eqb (a_pre st) p then a_w st else 0%Qc) rs))%Qc).
+  { induction rs as [|st rs]; intros acc; cbn [fold_left map]; rewrite ?qsum_cons, ?qsum_nil; [ring|].
+    rewrite IHrs. destruct (list_nat_eqb (a_pre st) p); ring. }
+  rewrite G. ring.
+Qed.
